@@ -31,7 +31,7 @@ func init() {
 		Level: "exploration",
 		Rule: "E1 bounded-exhaustive enumeration of the kind grammar T ::= scalar | string | [k]T | []T | map[K]T | *T | interface{} | struct{T,…} built with reflect to depth 3 (thorough 4) (every depth-1 type, then W types spread over each level as elements of the next): all 17 scalar kinds (bool, int8..64, int, uint8..64, uint, uintptr, float32/64, complex64/128) at every leaf position of depth-1 composites, a 7-type leaf subset plus 9 types of the previous level for binary structs; arrays of 0 and 2 elements; struct arity 1 and 2; map keys string/int32/uint; " +
 			"values per type from a shape alphabet (slices nil/empty/1/2 elements, maps nil/empty/1/2 entries, pointers nil/non-nil, interfaces nil/scalar/string/pointer/struct, strings \"\",\"a\",\"abc\" and 40 bytes; over leaf types also slices of 9, 70 and 1025 elements and maps of 9, 40 and 1000 entries; pointer values are deliberately REUSED in both elements of arrays and both fields of structs, so shared acyclic pointers occur). Oracle: the generator returns (value, size) and computes the size while building (headers 16/24/8/8/16, 8 for int/uint/uintptr; 64-bit platform asserted). size.Of on every value; Stat(v,d,m) for d in {0,1,3}, m in {0,1,10} and the AvgOf form: the number on the first line equals the expected size. " +
-			"Plus 9 hand-written values of Go types reflect cannot build (unexported and embedded fields, named types, padding), and a SEQUENCE of 13 values of distinct types that print alike (seven local types all called props.rec, two package-level types both called model.Rec; in pairs also equal in Size and Kind), measured in order by one goroutine, forward then backward: nothing may be carried from one type to a like-named one. A case is one (value, function) pair; non-trivial when the type is composite.",
+			"Plus 14 hand-written values of Go types reflect cannot build (unexported and embedded fields, named types, padding, interior pointers of another type into the object being walked - to its first field or element and further in), and a SEQUENCE of 13 values of distinct types that print alike (seven local types all called props.rec, two package-level types both called model.Rec; in pairs also equal in Size and Kind), measured in order by one goroutine, forward then backward: nothing may be carried from one type to a like-named one. A case is one (value, function) pair; non-trivial when the type is composite.",
 		Assumptions: []string{
 			"64-bit platform (asserted at start)",
 			"types deeper than D, struct arity > 2 and cyclic values are not generated (cycles are excluded by the statement)",
@@ -286,7 +286,46 @@ func c20Handwritten() c20Type {
 		1+8+(16+3)+(8+4)+(16+16+1)+(8+(16+1)+8+(16+2)+8)+(24+12), "all-unexported struct, filled")
 	add(&c20Unexp{a: 1}, 8+1+8+16+8+16+8+24, "pointer to unexported struct")
 	add([]interface{}{c20MyInt(1), nil, &i32, c20Emb{5}}, 24+(16+8)+16+(16+8+4)+(16+4), "[]interface{} of named values")
+	// interior pointers: acyclic values in which a pointer of ANOTHER type points into the very
+	// object being walked - to its first field or element (same address as the object), or further in
+	cur := &c20Cursor{val: 5}
+	cur.cur = &cur.val
+	add(cur, 8+8+(8+8), "*struct{val int64; cur *int64} with cur = &val (offset 0)")
+	ring := &c20Ring{}
+	ring.head = &ring.buf[0]
+	add(ring, 8+16+(8+4), "*struct{buf [4]int32; head *int32} with head = &buf[0]")
+	ring2 := &c20Ring{}
+	ring2.head = &ring2.buf[2]
+	add(ring2, 8+16+(8+4), "the same with head = &buf[2] (offset 8)")
+	nest := &c20Nest{}
+	nest.p = &nest.in
+	add(nest, 8+(8+1)+(8+8+1), "*struct{in struct{a int64; b bool}; p *in} with p = &in")
+	arr := &[3]int64{1, 2, 3}
+	add(struct {
+		a *[3]int64
+		e *int64
+	}{arr, &arr[0]}, (8+24)+(8+8), "struct{a *[3]int64; e *int64} with e = &a[0]")
 	return t
+}
+
+type c20Cursor struct {
+	val int64
+	cur *int64
+}
+
+type c20Ring struct {
+	buf  [4]int32
+	head *int32
+}
+
+type c20NestIn struct {
+	a int64
+	b bool
+}
+
+type c20Nest struct {
+	in c20NestIn
+	p  *c20NestIn
 }
 
 // Distinct types that print alike: reflect.Type.String() is "props.rec" for every
